@@ -55,6 +55,8 @@ pub struct Ctx {
 	pub capped: bool,
 	pub samples: Vec<Value>,
 	pub distinct: std::collections::BTreeSet<u128>,
+	pub last_lap: Instant,
+	pub laps: Vec<(String, f64)>,
 }
 
 impl Ctx {
@@ -63,6 +65,12 @@ impl Ctx {
 	}
 	pub fn push(&mut self, order: u64, v: Viol) {
 		self.viols.push((order, v));
+	}
+	pub fn lap(&mut self, name: &str) {
+		let now = Instant::now();
+		let d = now.duration_since(self.last_lap).as_secs_f64();
+		self.last_lap = now;
+		self.laps.push((name.to_string(), (d * 10.0).round() / 10.0));
 	}
 	pub fn nontrivial(&mut self, bytes: &[u8]) {
 		self.distinct.insert(mc_common::digest128(bytes));
@@ -108,12 +116,13 @@ fn main() {
 	}
 	mc_common::par::install_quiet_panic_hook();
 	let start = Instant::now();
+	let mut ev = Evidence::new(ID, args.tier, args.seed, Level::Exploration);
 	let cap = if args.wall_cap_s > 0 {
 		args.wall_cap_s
 	} else if args.tier.is_thorough() {
 		1800
 	} else {
-		50
+		55
 	};
 	let mut cx = Ctx {
 		tier: args.tier,
@@ -124,6 +133,8 @@ fn main() {
 		capped: false,
 		samples: Vec::new(),
 		distinct: Default::default(),
+		last_lap: start,
+		laps: Vec::new(),
 	};
 	let only = args.opt("only").map(|s| s.to_string());
 	let want = |n: &str| only.as_deref().map(|o| o.split(',').any(|x| x == n)).unwrap_or(true);
@@ -144,7 +155,6 @@ fn main() {
 	phase!("b12", run12::run(&mut cx));
 
 	// ---------------------------------------------------------------------------------------
-	let mut ev = Evidence::new(ID, args.tier, args.seed, Level::Exploration);
 	for (k, v) in cx.stats.0.iter() {
 		ev.set(k, *v);
 	}
@@ -159,6 +169,8 @@ fn main() {
 	ev.set("exhaustive", !cx.capped && only.is_none());
 	ev.set("wall_cap_s", cap);
 	ev.set("timings_s", json!(timings.iter().map(|(n, t)| json!([n, (t * 10.0).round() / 10.0])).collect::<Vec<_>>()));
+	ev.set("sub_phase_wall_s", json!(cx.laps.iter().map(|(n, t)| json!([n, t])).collect::<Vec<_>>()));
+	eprintln!("[{}] sub-phases: {:?}", ID, cx.laps);
 	for s in cx.samples.iter() {
 		ev.sample(s.clone(), 24);
 	}
@@ -294,4 +306,10 @@ pub fn rt_identity(oracle: &str, fam: &str, detail: &str, minimal: &str) -> Stri
 	} else {
 		format!("{}|{}|{}", oracle, fam, minimal)
 	}
+}
+
+/// Keeps the first (lowest rank first) violation of each identity.
+pub fn dedup_by_identity(v: &mut Vec<Viol>) {
+	v.sort_by(|a, b| (a.identity.as_str(), a.rank).cmp(&(b.identity.as_str(), b.rank)));
+	v.dedup_by(|b, a| a.identity == b.identity);
 }
